@@ -23,7 +23,7 @@ import fcntl
 
 VERIF = os.path.dirname(os.path.dirname(os.path.abspath(__file__)))
 REPO = os.environ.get("VERIF_REPO", "/repo")
-WORK = os.path.join(VERIF, ".work")
+WORK = os.path.join(VERIF, ".work") if REPO == "/repo" else os.path.join(VERIF, ".work", "alt_" + hashlib.sha256(REPO.encode()).hexdigest()[:8])
 CACHE = os.path.join(VERIF, ".cache")
 GUARD = "BINSON_C_LIGHT_VERIF"
 
@@ -227,7 +227,7 @@ def run_job(job, use_cache=True):
         res.update({"status": "undecided", "reason": "build: " + str(e)[-1500:], "log": log,
                     "wall_s": round(time.time() - t0, 2), "obligations": [], "n": 0, "n_ok": 0})
         return res
-    cb = ["cbmc", binary, "--json-ui", "--trace", "--object-bits", "10"] + job.cbmc_args
+    cb = ["cbmc", binary, "--json-ui", "--object-bits", "10"] + job.cbmc_args
     h = sha_file(binary)
     h.update(("\0".join(cb[2:]) + cbmc_version()).encode())
     key = h.hexdigest()
@@ -262,6 +262,8 @@ def run_job(job, use_cache=True):
         res["warnings"] = warn[:20]
         if to:
             res.update({"status": "undecided", "reason": "timeout after %ds" % job.timeout})
+        elif rc not in (0, 10) or "Out of memory" in (msgs or "") or "out of memory" in (msgs or ""):
+            res.update({"status": "undecided", "reason": "cbmc rc=%s (not a verdict): %s" % (rc, (msgs or "")[-300:])})
         elif results is None:
             why = "out of memory / killed" if rc in (-9, 137, -6, 134, 6) or "bad_alloc" in (err or "") else "tool error rc=%s" % rc
             res.update({"status": "undecided", "reason": why + ": " + (err or "")[-500:] + (msgs or "")[-500:]})
@@ -272,9 +274,10 @@ def run_job(job, use_cache=True):
                 o = {"id": r.get("property"), "desc": r.get("description"), "status": r.get("status"),
                      "file": os.path.basename(sl.get("file", "")), "line": int(sl.get("line", 0) or 0),
                      "function": sl.get("function", "")}
-                if r.get("status") == "FAILURE" and "trace" in r:
-                    o["trace"] = compact_trace(r["trace"])
                 obl.append(o)
+            real_fail = [o for o in obl if o["status"] == "FAILURE" and not (o["desc"] or "").startswith("vacuity control")]
+            if real_fail:
+                add_traces(job, binary, cb, real_fail[:3], res)
             res["obligations"] = obl
             res["n"] = len(obl)
             res["n_ok"] = sum(1 for o in obl if o["status"] == "SUCCESS")
@@ -298,6 +301,23 @@ def run_job(job, use_cache=True):
         lock.close()
 
 
+def add_traces(job, binary, cb, failed, res):
+    """Second pass, only when something failed: ask CBMC for the counterexample of up to three failed obligations."""
+    for o in failed:
+        outp = os.path.join(job.workdir(), "trace.json")
+        cmd = [c for c in cb if c != "--json-ui"] + ["--json-ui", "--trace", "--property", o["id"]]
+        rc, out, err, secs, to = run_cmd(cmd, min(job.timeout, 900), job.mem_gb, stdout_path=outp)
+        if to:
+            continue
+        try:
+            results, verdict, msgs = parse_cbmc_json(outp)
+            for r in results or []:
+                if r.get("property") == o["id"] and "trace" in r:
+                    o["trace"] = compact_trace(r["trace"])
+        except Exception:
+            pass
+
+
 def compact_trace(trace):
     """Keep the assignments of a CBMC json trace that matter for a replay: inputs and struct fields."""
     out = []
@@ -317,4 +337,4 @@ def compact_trace(trace):
             val = "<struct>"
         sl = st.get("sourceLocation", {})
         out.append({"lhs": lhs, "value": val, "bin": v.get("binary"), "fn": sl.get("function"), "line": sl.get("line")})
-    return out[-400:]
+    return out[-250:]
